@@ -15,11 +15,11 @@ CONSTANTS
   MaxApi = 0
   WithGC = FALSE
   AtomicPeers = FALSE
-  SignedWant = FALSE
+  SignedWant = TRUE
   Serialized = FALSE
   DirectAPI = FALSE
   MaxLen = 200
-  Wanted = {"full", "overshootround", "inset", "x_hardLimit", "x_roundBelow"}
+  Wanted = {"full", "inset", "x_hardLimit"}
 CHECK_DEADLOCK FALSE
 VIEW state
 ACTION_CONSTRAINT CoarseSchedule
